@@ -3,6 +3,7 @@ from ..gen import Gen
 from ..unit import run_unit
 from .. import camp_props
 from ..units.loop import Loop
+from ..units.callbacks import CallbacksUnit
 
 PROP_FILES = ["props/C12.v"]
 TECHNIQUE = "Coq proof (invariants by induction over arbitrary step-oracle traces) + exact differential correspondence of Solver.solve with a scripted step oracle"
@@ -10,8 +11,8 @@ TECHNIQUE = "Coq proof (invariants by induction over arbitrary step-oracle trace
 
 def run(rep, tier, seed, scratch):
     g = Gen(seed)
-    u = Loop()
-    run_unit(rep, u, u.gen(g, tier), scratch)
+    for u in (Loop(), CallbacksUnit()):
+        run_unit(rep, u, u.gen(g, tier), scratch)
     camp_props.run_single(rep, 'C12', tier, seed, 40, 300, allow={'collect_path': True})
     camp_props.run_single(rep, 'C12', tier, seed + 1, 16, 80, allow={'collect_path': True, 'iteration_limit': 400}, families=['line1'], name='collinear', scaling=False)
     camp_props.run_reuse_C12(rep, tier, seed)
